@@ -121,6 +121,13 @@ func c12Pipeline(c *wk.Case) (string, string) {
 		{"try numbers(1000000000).merge(numbers(1000000000),(a,b)->a<b).map(x->failAt(x,5)).size() catch 0", "merge-consumer-fails-long"},
 		{"try numbers(100000).multiUse({u:l->l.map(x->hpanic2(x,5)).sum(),v:l->l.size()}).string() catch 0", "multiUse-consumer-panics"},
 		{"try numbers(100000).map(x->hpanic2(x,5)).multiUse({u:l->l.sum(),v:l->l.size()}).string() catch 0", "multiUse-source-panics"},
+		// a consumer behind a parallel stage panics (host function, recursion guard) instead of returning an error
+		{"try " + src + ".reduce((p,q)->if q>=40 then hpanic2(q,q) else p+q) catch 0", "par-consumer-panics-reduce"},
+		{src + ".mapReduce(0,(s,y)->hpanic2(y,40)+s)", "par-consumer-panics-mapReduce"},
+		{"try " + src + ".number((i,y)->hpanic2(y,30)).sum() catch 0", "par-consumer-panics-number"},
+		{"try " + src + ".iir(y->y,(y,l)->hpanic2(y,35)+l).size() catch 0", "par-consumer-panics-iir"},
+		{"[func r(y) r(y+1); try " + src + ".reduce((p,q)->if q>=40 then r(q) else p+q) catch 0][0]", "par-consumer-recursion-guard"},
+		{"try " + src + ".map(y->hpanic2(y,45)).sum() catch 0", "par-second-map-panics"},
 		// misuse: the call is rejected after some of its goroutines may have been started
 		{"try numbers(10).multiUse({a:l->l.reduce((a,b)->a+b), b:3}) catch 0", "multiUse-rejected-not-a-function"},
 		{"try numbers(10).multiUse({a:l->l.sum(), b:l->l.size(), c:(x,y)->x}) catch 0", "multiUse-rejected-arity"},
